@@ -90,6 +90,13 @@ def case_success(kind, fam, mat, extras, rep):
                 else:
                     fem.tools.newtonrhapson(x0=res.x, items=items, dof0=dof0, dof1=dof1, ext0=ext0, tol=tol, verbose=False)
                 run.units["success:continuation"] += 1
+                # back to exactly zero prescribed values from a state with non-zero values on the prescribed unknowns
+                b.update(0.0)
+                dof0, dof1 = fem.dof.partition(field, bounds)
+                ext0 = fem.dof.apply(field, bounds, dof0)
+                if not np.any(ext0):
+                    fem.newtonrhapson(items=items, dof0=dof0, dof1=dof1, ext0=ext0, tol=tol, verbose=False)
+                    run.units["success:unload-to-zero"] += 1
             run.configs.add(str((kind, fam, mat, extras)))
         finally:
             attach.detach_all()
@@ -113,6 +120,16 @@ def case_linear(fam, rep):
             body = fem.SolidBody(umat, field)
             load = fem.SolidBodyForce(field, values=rng.uniform(-0.1, 0.1, mesh.dim))
             res = fem.newtonrhapson(items=[body, load], verbose=False, tol=1e-8, **lc)
+            # unloading a linear problem back to zero prescribed values is linear as well
+            bounds["move"].update(0.0)
+            dof0, dof1 = fem.dof.partition(field, bounds)
+            ext0 = fem.dof.apply(field, bounds, dof0)
+            res0 = fem.newtonrhapson(items=[body, load], dof0=dof0, dof1=dof1, ext0=ext0, verbose=False, tol=1e-8)
+            if res0.iterations == 1:
+                run.ok("newton.linear", unit="linear:unload-one-iteration", config=("linear-unload", fam))
+            else:
+                run.fail("newton.linear", "clause=linear-problem-one-update[unloading]", "unloading a linear problem to zero prescribed values needed %d iterations"
+                         % res0.iterations, {"fnorms": res0.fnorms})
             if res.iterations == 1:
                 run.ok("newton.linear", unit="linear:one-iteration", config=("linear", fam),
                        sample={"problem": "linear elastic + body force, " + fam, "iterations": int(res.iterations), "fnorms": [float(x) for x in res.fnorms]})
@@ -196,7 +213,7 @@ def cases(tier, seed):
 
 SPEC = {
     "required_units": ["success:3d", "success:planestrain", "success:axisymmetric", "success:mixed", "success:ni", "success:with-force",
-                       "success:with-pointload", "success:with-pressure", "success:continuation", "success:prescribed-values",
+                       "success:with-pointload", "success:with-pressure", "success:continuation", "success:unload-to-zero", "linear:unload-one-iteration", "success:prescribed-values",
                        "success:reported-residual", "success:reassembly", "success:reassembly-settled", "success:fun", "success:commit",
                        "solve:reduced-system", "solve:prescribed-increment", "linear:one-iteration", "failure:maxiter",
                        "failure:no-commit", "failure:raises:ValueError"],
